@@ -399,6 +399,17 @@ func (tc *TypeChecker) ValidateTypeReference(t Type) error {
 	return nil
 }
 
+// TypeDefHasRequiredFields reports whether an object of this type must carry
+// at least one field: a required field without a default.
+func TypeDefHasRequiredFields(typeDef TypeDef) bool {
+	for _, field := range typeDef.Fields {
+		if field.Required && field.Default == nil {
+			return true
+		}
+	}
+	return false
+}
+
 // ValidateObjectAgainstTypeDef validates an object against a TypeDef
 func (tc *TypeChecker) ValidateObjectAgainstTypeDef(obj map[string]interface{}, typeDef TypeDef) error {
 	// Check required fields (fields with defaults are not required to be
